@@ -21,7 +21,7 @@ ASSUMPTIONS = ['"loads back to equal directives" is a property of Beancount\'s p
                'account patterns are inserted into the template text by string interpolation: patterns containing a double quote are outside the domain']
 
 FROMS = [None, "year >= 2020", "flag = '*'", "OPEN ON 2020-01-01", "CLOSE ON 2020-07-01", "OPEN ON 2019-06-01 CLOSE ON 2020-06-01 CLEAR",
-         "has_account('Food') CLOSE ON 2021-01-01", "CLEAR"]
+         "has_account('Food') CLOSE ON 2021-01-01", "CLEAR", "CLOSE", "year >= 2019 CLOSE", "CLOSE CLEAR", "OPEN ON 2019-06-01 CLOSE"]
 WHERES = [None, "account ~ 'Assets'", "number > 0", "currency = 'USD' AND account ~ 'Expenses'"]
 PATTERNS = [None, 'Assets', 'Expenses:Food', 'Assets:Bank', 'Assets:Broker', 'Bank|Card', '^Income', 'nomatch',
             'Bank\\b', 'Assets:\\w+:Checking$', 'Expenses:Foo\\w']
@@ -149,6 +149,16 @@ def print_layer(ctx, lk, conn, entries, options):
         sel = 'SELECT id FROM #entries' + (' WHERE ' + frm if frm else '')
         ids = [r[0] for r in conn.execute(sel).fetchall()]
         want = [e for e in entries if hash_entry(e) in set(ids)]
+        if frm and frm.startswith("has_account('") and frm.endswith("')"):
+            # ... and, for has_account, by Beancount's own account getter: every kind of directive that names the account
+            import re as _re
+            from beancount.core import getters
+            pattern = frm[len("has_account('"):-2]
+            direct = [e for e in entries if any(_re.search(pattern, a, _re.IGNORECASE) for a in getters.get_entry_accounts(e))]
+            if [hash_entry(e) for e in direct] != [hash_entry(e) for e in want]:
+                ctx.record_violation('print-filter-has-account', '%s selects %d directives, %d name a matching account (%s)' % (
+                    text, len(want), len(direct), sorted({type(e).__name__ for e in direct} - {type(e).__name__ for e in want})),
+                    payload={'statement': text})
         ctx.evaluations += 1
         if len(want) >= 2:
             ctx.nontrivial_hashes.add(hash((lk, text)))
